@@ -136,6 +136,7 @@ type Machine struct {
 	clock     *sym.Term
 	rpc       map[*Value]*rpcServer
 	httpS     *httpSide
+	protoMsgs []protoMsg
 	fs        map[string]*fsEnt
 	errNotExist Value
 }
